@@ -94,6 +94,28 @@ DESC.update({
  "C17r2-3": "error_offset replaced by nom::Offset::offset: an error slice outside the request (static \"\" after a trailing comment) underflows",
 })
 
+DESC.update({
+ "C01r3-1": "bind join uses par_chunks_exact: the trailing len % chunk rows of the left side vanish (> 64 rows, not a multiple, >= 2 threads)",
+ "C01r3-2": "&& / || in FILTER short-circuit on the left operand with `?`: error || true and error && false become errors (unbound left operand)",
+ "C03r3-1": "templates instantiated once per distinct projection of the solution onto the template variables (blank-node templates no longer fresh per solution)",
+ "C04r3-1": "named-graph lookup with a visibility set probes the set's members directly (default graph id in the set leaks default-graph quads)",
+ "C04r3-2": "index rebuild of a store without quads clears the whole dataset index (named-graph identities of empty graphs vanish)",
+ "C05r3-1": "rule hash join probes with par_chunks_exact: tail of > 1000 matching facts never joined (>= 2 threads)",
+ "C05r3-2": "semi-naive skips a rule when no constant premise predicate occurs in the delta (rule mixing variable- and constant-predicate premises, second round)",
+ "C07r3-1": "try_unique_d reserves the unique-table slot through the entry API before the budget check (stale entry after exhaustion exactly at a Decision allocation)",
+ "C09r3-1": "scope() returns early while ts stays in the slide bucket of the last report (width % slide != 0: a window opening inside the bucket is created late, items missing)",
+ "C12r3-1": "a fact improved while it is in the current delta is not re-queued (consumer rule listed before the improving rule)",
+ "C13r3-1": "N-Triples loader strips a trailing comment at the last `#` preceded by a dot (a `#` inside an IRI or literal after a dot truncates the statement)",
+ "C13r3-2": "`!escaped` guard dropped from the backslash arm of the N-Triples/N-Quads term splitter (character after an escaped backslash treated as escaped)",
+ "C15r3-1": "union fast path for equal dictionaries pre-fills the identity translation and merges the quoted stores (clashing quoted ids)",
+ "C15r3-2": "Dictionary::encode inserts into string_to_id before the id-range check (refused call leaves term -> 2^31 behind)",
+ "C16r3-1": "hex-digit check dropped from the IRI \\u/\\U escape scanner (multi-byte char straddling the window panics; sign accepted)",
+ "C18r3-1": "only the first unifying conclusion of a multi-conclusion rule is expanded (find_map)",
+ "C18r3-2": "first fresh variable index takes the last v<n> of the goal, not the largest (second variant)",
+ "C19r3-1": "repair-aware materialisation checks a candidate semi-naively against all_facts without the candidate (fact matching two premises of one constraint)",
+ "C19r3-2": "repair search restricted to facts whose predicate a constraint names; variable-predicate premises skipped (schema-level constraints)",
+})
+
 S = "/verif/seeded"
 print("| id | change (written by an independent sub-agent from the property text alone) | first run of the check | now |")
 print("|---|---|---|---|")
